@@ -16,8 +16,12 @@
   G. every connection dialled for a CONNECT is closed on every way out of `handleConnectRequest` — also
      when `Connect` hands it out TOGETHER WITH an error — so the dialer gauge returns to 0; a connection
      without a closer keeps it up for ever (what "defer after the error check" does on exactly those paths)
+  H. every ACCEPTED connection that ends before its first request — in whichever phase (accepted, PROXY
+     header, TLS handshake, waiting for the request), for whichever reason (the peer, the layer's timer) — is
+     closed and counted closed exactly once; `active = accepted − closed` over all interleavings including
+     these edges; a return of handleLoop that the deferred Close does not cover leaks exactly these
 -/
-import FwdVerif.Lemmas.C13Dial
+import FwdVerif.Lemmas.C13Life
 
 namespace FwdVerif
 namespace C13
@@ -579,6 +583,166 @@ theorem c13_defer_after_error_check_leaks_family :
     (ConnectExit.mk .unset (.viaSOCKS5 true .established) true false (.passedOn false)).devents .afterErrorCheck = [.opened] ∧
     (ConnectExit.mk (.result ⟨none, true, true⟩) (.direct true) false true (.passedOn false)).devents .afterErrorCheck = [.opened] := by
   decide
+
+/-! ## H. Accepted connections that end before their first request -/
+
+/-- as long as handleLoop has not returned — in every phase, on every listener stacking, under ANY placement
+    of the deferred Close — the connection is open and not counted closed -/
+theorem c13_live_connection_is_open_and_uncounted (lay : Layout) (k : LStack) (evs : List AEv)
+    (hlive : (AConn.new.run lay k evs).phase ≠ .closed) :
+    (AConn.new.run lay k evs).hook = 0 ∧ (AConn.new.run lay k evs).socketOpen = true :=
+  (ainv_run lay k _ evs ainv_new).live hlive
+
+/-- the failure edge out of EVERY state before `closed` (accepted, PROXY header, TLS handshake, serving), for
+    every cause (the peer: FIN, RST, not a header / not a ClientHello, version or cipher mismatch, an alert;
+    the layer's own timer), on every stacking: the closed count goes up by exactly one, the socket is closed,
+    handleLoop has returned — through one or two calls of the tracked `Close` -/
+theorem c13_every_end_before_first_request_is_counted_closed (k : LStack) (ph : Phase) (cause : EndCause)
+    (hph : ph ≠ .closed) :
+    AConn.step .code k ⟨ph, true, 0⟩ (.fail cause) = ⟨.closed, false, 1⟩ ∧
+      1 ≤ closeCalls .code k ph cause ∧ closeCalls .code k ph cause ≤ 2 := by
+  refine ⟨?_, closeCalls_code_pos k ph cause, ?_⟩
+  · simp [AConn.step, hph, closeCalls_code_pos, socketClosedBy_code]
+  · simp only [closeCalls]; split <;> split <;> omega
+
+-- non-vacuity: a plain-text request on the TLS port (one Close: the deferred one), a handshake that times
+-- out (two: crypto/tls's and the deferred one), a PROXY header that never comes (the socket is closed below
+-- the tracker, the deferred Close is the only tracked one)
+example : closeCalls .code ⟨false, true⟩ .tlsHandshake .peer = 1 ∧ closeCalls .code ⟨false, true⟩ .tlsHandshake .timeout = 2 ∧
+    closeCalls .code ⟨true, true⟩ .proxyHeader .timeout = 1 ∧ selfClose .proxyHeader .timeout = .socketBelow := by decide
+
+/-- the one or two `Close` calls of such an edge, run on the close machine of section D in any schedule: once
+    they have returned the hook has run exactly once -/
+theorem c13_end_close_calls_run_hook_once (k : LStack) (ph : Phase) (cause : EndCause) (sched : List Nat)
+    (hd : ((CloseSt.init (closeCalls .code k ph cause)).run true sched).doneCount = closeCalls .code k ph cause) :
+    ((CloseSt.init (closeCalls .code k ph cause)).run true sched).callbacks = 1 := by
+  apply c13_close_exactly_once
+  have := closeCalls_code_pos k ph cause
+  omega
+
+example : ((CloseSt.init (closeCalls .code ⟨false, true⟩ .tlsHandshake .timeout)).run true [1, 0, 0, 1]).doneCount = 2 := by decide
+
+/-- the same edge in the listener's books, in ANY reachable state (any number of other connections in any
+    phase, any history): a connection whose handleLoop has not returned and that now fails moves the closed
+    count by exactly +1 and the gauge by exactly −1; nothing else moves -/
+theorem c13_end_before_first_request_moves_gauge_once (k : LStack) (ops : List ALOp) (i : Nat) (c : AConn)
+    (cause : EndCause) (hi : (ALSt.init.run .code k ops).conns[i]? = some c) (hlive : c.phase ≠ .closed) :
+    let s := ALSt.init.run .code k ops
+    let s' := s.step .code k (.conn i (.fail cause))
+    s'.closedCount = s.closedCount + 1 ∧ s'.active = s.active - 1 ∧ s'.accepted = s.accepted ∧
+      s'.errors = s.errors ∧ s'.conns[i]? = some ⟨.closed, false, 1⟩ := by
+  have hinv := alinv_run AInvCode .code k ainvCode_new (fun c e h => ainvCode_step k c e h) ALSt.init ops (alinv_init _)
+  generalize ALSt.init.run .code k ops = s at hi hinv ⊢
+  have hc := hinv.each c (List.mem_of_getElem? hi)
+  obtain ⟨h0, hopen⟩ := hc.live hlive
+  have hstep : c.step .code k (.fail cause) = ⟨.closed, false, 1⟩ := by
+    have := (c13_every_end_before_first_request_is_counted_closed k c.phase cause hlive).1
+    have hce : c = ⟨c.phase, true, 0⟩ := by cases c; simp_all
+    rw [hce]; exact this
+  have hs := hook_sum_set s.conns i c (c.step .code k (.fail cause)) hi
+  have hlt : i < s.conns.length := by
+    rcases Nat.lt_or_ge i s.conns.length with h | h
+    · exact h
+    · have hnone : s.conns[i]? = none := List.getElem?_eq_none h
+      rw [hnone] at hi; cases hi
+  simp only [ALSt.step, hi, ALSt.closedCount, hstep] at hs ⊢
+  refine ⟨by omega, by omega, trivial, trivial, ?_⟩
+  simp [hlt]
+
+/-- all interleavings: for every sequence of accepts, accept errors and steps of any connection (success
+    and failure edges of every phase mixed in any order), on every stacking and under ANY placement of the
+    deferred Close: `active = accepted − closed`, `0 ≤ active`, one tracked connection per accept -/
+theorem c13_accepted_active_eq_accepted_minus_closed (lay : Layout) (k : LStack) (ops : List ALOp) :
+    let s := ALSt.init.run lay k ops
+    s.active = (s.accepted : Int) - (s.closedCount : Int) ∧ 0 ≤ s.active ∧ s.conns.length = s.accepted := by
+  have h := alinv_run AInv lay k ainv_new (fun c e h => ainv_step lay k c e h) ALSt.init ops (alinv_init _)
+  generalize ALSt.init.run lay k ops = s at h ⊢
+  refine ⟨h.act, ?_, h.len⟩
+  have hle := hook_sum_le_length s.conns (fun c hc => (h.each c hc).le)
+  have := h.act; have := h.len
+  simp only [ALSt.closedCount] at *
+  omega
+
+/-- … and in the code's layout, once every handleLoop has returned — however each connection ended: before
+    the PROXY header, in the handshake, before or after its first request — the gauge is 0, every connection
+    is counted closed (closed = accepted), and the proxy holds no socket any more -/
+theorem c13_accepted_all_returned_gauge_zero (k : LStack) (ops : List ALOp)
+    (hall : (ALSt.init.run .code k ops).allReturned = true) :
+    let s := ALSt.init.run .code k ops
+    s.active = 0 ∧ s.closedCount = s.accepted ∧ s.openSockets = 0 ∧ s.dropped = 0 := by
+  have h := alinv_run AInvCode .code k ainvCode_new (fun c e h => ainvCode_step k c e h) ALSt.init ops (alinv_init _)
+  generalize ALSt.init.run .code k ops = s at h hall ⊢
+  have hgone : ∀ c ∈ s.conns, c.hook = 1 ∧ c.socketOpen = false := by
+    intro c hc
+    have hp := List.all_eq_true.mp hall c hc
+    exact (h.each c hc).gone (by simpa using hp)
+  have hsum := hook_sum_eq_length s.conns (fun c hc => (hgone c hc).1)
+  have hopen : s.openSockets = 0 := filter_length_zero _ _ (fun c hc => (hgone c hc).2)
+  have hdrop : s.dropped = 0 := filter_length_zero _ _ (fun c hc => by simp [(hgone c hc).2])
+  have := h.act; have := h.len
+  simp only [ALSt.closedCount] at *
+  exact ⟨by omega, by omega, hopen, hdrop⟩
+
+-- non-vacuity: a PROXY+TLS listener; five connections interleaved — a good exchange, a header that never
+-- comes, a plain-text request in place of the ClientHello, a handshake that times out, a client that closes
+-- right after the handshake — and a failed accept
+example :
+    let s := ALSt.init.run .code ⟨true, true⟩ [.accept, .accept, .conn 0 .ok, .conn 1 .ok, .accept, .conn 1 (.fail .timeout),
+      .conn 0 .ok, .conn 2 .ok, .acceptError, .accept, .conn 2 .ok, .conn 0 .ok, .conn 2 (.fail .peer), .accept, .conn 3 .ok,
+      .conn 3 .ok, .conn 4 .ok, .conn 0 .ok, .conn 3 (.fail .timeout), .conn 4 .ok, .conn 4 .ok, .conn 0 (.fail .peer),
+      .conn 4 (.fail .peer)]
+    s.allReturned = true ∧ s.accepted = 5 ∧ s.errors = 1 ∧ s.active = 0 ∧ s.closedCount = 5 ∧ s.openSockets = 0 := by decide
+
+/-- which edges a placement of the deferred Close covers: a connection that fails in `ph` is counted closed
+    exactly when the return it leaves through runs the deferred Close or the failing layer itself closed the
+    tracked connection (crypto/tls on a handshake time-out), and its socket is closed exactly when one of the
+    two — or the layer closed the socket underneath (the PROXY header time-out) — happened -/
+theorem c13_end_counted_iff_covered (lay : Layout) (k : LStack) (ph : Phase) (cause : EndCause) (hph : ph ≠ .closed) :
+    let c' := AConn.step lay k ⟨ph, true, 0⟩ (.fail cause)
+    c'.phase = .closed ∧
+    (c'.hook = 1 ↔ (lay (exitPoint k ph) = true ∨ selfClose ph cause = .tracked)) ∧
+    (c'.hook = 0 ↔ ¬ (lay (exitPoint k ph) = true ∨ selfClose ph cause = .tracked)) ∧
+    (c'.socketOpen = false ↔ (lay (exitPoint k ph) = true ∨ selfClose ph cause ≠ .nothing)) := by
+  cases hl : lay (exitPoint k ph) <;> cases hs : selfClose ph cause <;>
+    simp [AConn.step, hph, closeCalls, socketClosedBy, hl, hs]
+
+/-- the witness: maybeHandshakeTLS moved above the registration and `defer conn.Close()`. An HTTPS listener, a
+    client that sends a plain-text request (or anything else that fails the handshake otherwise than by the
+    time-out): in the code's order the connection is closed and counted; handshake-first it is dropped —
+    handleLoop has returned, the socket is open, nothing counted, the gauge stays 1. The time-out case (the one
+    the moved comment speaks of) still closes, and so does everything on a plain listener; on a PROXY+TLS
+    listener a bad PROXY header leaks too (its error surfaces in the handshake) -/
+theorem c13_handshake_before_defer_leaks :
+    let tls : LStack := ⟨false, true⟩
+    let ops : List ALOp := [.accept, .conn 0 .ok, .conn 0 (.fail .peer)]
+    (ALSt.init.run .code tls ops).active = 0 ∧ (ALSt.init.run .code tls ops).openSockets = 0 ∧
+    (ALSt.init.run .handshakeFirst tls ops).allReturned = true ∧
+    (ALSt.init.run .handshakeFirst tls ops).active = 1 ∧ (ALSt.init.run .handshakeFirst tls ops).closedCount = 0 ∧
+    (ALSt.init.run .handshakeFirst tls ops).openSockets = 1 ∧ (ALSt.init.run .handshakeFirst tls ops).dropped = 1 ∧
+    (ALSt.init.run .handshakeFirst tls [.accept, .conn 0 .ok, .conn 0 (.fail .timeout)]).active = 0 ∧
+    (ALSt.init.run .handshakeFirst tls [.accept, .conn 0 .ok, .conn 0 .ok, .conn 0 (.fail .peer)]).active = 0 ∧
+    (ALSt.init.run .handshakeFirst ⟨false, false⟩ ops).active = 0 ∧
+    (ALSt.init.run .handshakeFirst ⟨true, true⟩ ops).active = 1 ∧
+    (ALSt.init.run .handshakeFirst ⟨true, true⟩ [.accept, .conn 0 .ok, .conn 0 (.fail .timeout)]).dropped = 0 ∧
+    (ALSt.init.run .handshakeFirst ⟨true, true⟩ [.accept, .conn 0 .ok, .conn 0 (.fail .timeout)]).active = 1 := by
+  decide
+
+/-- a dropped connection is never made good: once some handleLoop has returned without the hook having run
+    (whatever the layout that let it happen), the gauge stays at 1 or more for ever — whatever else is accepted,
+    served, failed or closed afterwards on any connection -/
+theorem c13_dropped_connection_never_returns (lay : Layout) (k : LStack) (before after : List ALOp) (j : Nat) (c : AConn)
+    (hj : (ALSt.init.run lay k before).conns[j]? = some c) (hp : c.phase = .closed) (h0 : c.hook = 0) :
+    1 ≤ (ALSt.init.run lay k (before ++ after)).active := by
+  rw [alrun_append]
+  have hi := alinv_run AInv lay k ainv_new (fun c e h => ainv_step lay k c e h) ALSt.init before (alinv_init _)
+  exact active_pos_of_dropped _
+    (alinv_run AInv lay k ainv_new (fun c e h => ainv_step lay k c e h) _ after hi)
+    (dropped_run lay k _ after ⟨j, c, hj, hp, h0⟩)
+
+example : (ALSt.init.run .handshakeFirst ⟨false, true⟩ [.accept, .conn 0 .ok, .conn 0 (.fail .peer)]).conns[0]? =
+    some ⟨.closed, true, 0⟩ := by decide
+example : (ALSt.init.run .handshakeFirst ⟨false, true⟩ ([.accept, .conn 0 .ok, .conn 0 (.fail .peer)] ++
+    [.accept, .conn 1 .ok, .conn 1 .ok, .conn 0 (.fail .timeout), .conn 1 .ok, .conn 1 (.fail .peer), .conn 0 .ok])).active = 1 := by decide
 
 end C13
 end FwdVerif
